@@ -13,12 +13,35 @@ def tiers(tier, quick, thorough):
 
 
 # concrete stand-ins for the uninterpreted projections (used for translator validation and replay only)
+# Two interpretations: 0 = generic non-commuting contractions (translator validation, wiring errors), 1 = identity maps (every point
+# is a fixed point, so the early-stopping branch of the loop is concretely reachable).  A counterexample of a stub-level obligation is
+# an input point together with one of these interpretations; the input `standin` of the obligation records which one.
+STANDIN = {"kind": 0}
+STANDIN_INPUT = [("standin", "int", 0, 1)]
+REPLAY_VARIANTS = [{"standin": 0}, {"standin": 1}]
+
+
+def set_standin(I):
+    v = I.get("standin", 0)
+    STANDIN["kind"] = int(v) if (not core.CTX.active and not isinstance(v, Sym)) else 0
+
+
 def _concrete_maps(n):
     rng = np.random.RandomState(12345 + n)
     A1 = rng.normal(size=(n, n)) * 0.3 / np.sqrt(n)
     b1 = rng.normal(size=n) * 0.1
     A2 = rng.normal(size=(n, n)) * 0.3 / np.sqrt(n)
-    return (lambda *x: list(A1 @ np.array(x) + b1)), (lambda *x: list(np.maximum(A2 @ np.array(x), -0.05) + 0.01 * np.array(x)))
+
+    def ce(*x):
+        if STANDIN["kind"] == 1:
+            return list(x)
+        return list(A1 @ np.array(x) + b1)
+
+    def ci(*x):
+        if STANDIN["kind"] == 1:
+            return list(x)
+        return list(np.maximum(A2 @ np.array(x), -0.05) + 0.01 * np.array(x))
+    return ce, ci
 
 
 def uf_apply(name, vec, conc):
@@ -119,6 +142,7 @@ def ob_dykstra(typ, sys, m, order, flag, level, K, hist_on, fixpoint=False):
     ce, ci = _concrete_maps(ns)
 
     def run(I):
+        set_standin(I)
         c = qenv.csys(sys)
         cls = c03.cls_of(typ)
         eps = I["eps"]
@@ -145,43 +169,42 @@ def ob_dykstra(typ, sys, m, order, flag, level, K, hist_on, fixpoint=False):
                 got = res
             ref = ref_dykstra(start, K, order, ce, ci)
         out = []
-        steps = len(hist["x"]) - 1
-        # stopping rule on the reference quantities: the loop runs sweep k=0,1 unconditionally (k=0 has no test) and stops
-        # after the first sweep k>=1 whose increment sum_j (dp_j^2 + dq_j^2) is < eps
+        # number of sweeps according to the REFERENCE stopping rule (independent of the routine's own history): sweep k=0 has no test,
+        # the loop stops after the first sweep k>=1 whose increment sum_j (dp_j^2 + dq_j^2) is < eps, and after sweep K-1 at the latest.
+        # (the comparisons fork the harness; on a path where the routine decided differently the claims below fail)
         errs = ref["err"]
-        def stop_formula(last):
-            """sweeps 0..last were executed: every tested sweep before the last continued; the last one stopped unless it was sweep K-1"""
-            parts = []
-            for k in range(1, last):
-                parts.append(SBool.of(errs[k] >= eps))
-            if last < K - 1:
-                parts.append(SBool.of(errs[last] < eps) if last >= 1 else False)
-            return s_and(parts)
-        out.append(Holds("at least min(2,K) sweeps, at most K", (min(2, K) <= steps <= K)))
-        out.append(Holds("stopped exactly when the increment criterion first fell below eps", stop_formula(steps - 1)))
+        steps = K
+        for k in range(1, K):
+            if k == K - 1 or bool(SBool.of(errs[k] < eps)):
+                steps = k + 1
+                break
+        if K == 1:
+            steps = 1
         expx = ref["x"][steps]
         if level == "var":
             expx = c03.cls_of(typ).convert_stacked_vector_to_var(c, SymNd(list(expx)) if nd.has_sym(expx) else np.array(list(expx), dtype=float), on_para_eq_constraint=flag)
-        out.append(Eq("returned point == reference Dykstra iterate", got, np.array(list(flat(expx)), dtype=object), 1e-9))
+        out.append(Eq("returned point == reference Dykstra iterate at the reference stopping sweep", got, np.array(list(flat(expx)), dtype=object), 1e-9))
+        if hist is None:
+            return out
         for key in ("x", "p", "q", "y"):
-            out.append(Holds(f"history[{key}] length", len(hist[key]) == steps + 1))
-            for j in range(steps + 1):
+            out.append(Holds(f"history[{key}] has one entry per executed sweep plus the start", len(hist[key]) == steps + 1))
+            for j in range(min(steps + 1, len(hist[key]))):
                 if key == "y" and j == 0:
                     out.append(Holds("history y[0] is None", hist["y"][0] is None))
                     continue
                 out.append(Eq(f"history[{key}][{j}] == reference", stk(hist[key][j]), np.array(list(ref[key][j]), dtype=object), 1e-9))
-        out.append(Holds("history[error_value] length", len(hist["error_value"]) == steps))
-        for j in range(steps):
+        out.append(Holds("history[error_value] has one entry per executed sweep", len(hist["error_value"]) == steps))
+        for j in range(min(steps, len(hist["error_value"]))):
             if j == 0:
                 out.append(Holds("error_value[0] is None", hist["error_value"][0] is None))
             else:
                 out.append(Eq(f"error_value[{j}] == sum (dp^2+dq^2)", hist["error_value"][j], ref["err"][j], 1e-9))
-        out.append(Eq("last history x == returned point", stk(hist["x"][-1]), np.array(list(ref["x"][steps]), dtype=object), 1e-9))
+        out.append(Eq("last history x == returned point", stk(hist["x"][-1]), res.to_stacked_vector() if level == "object" else np.array(list(ref["x"][steps]), dtype=object), 1e-9))
         return out
 
     n_in = ns if level == "object" else nv
-    ob = FnOb(reals("x", n_in, -100.0, 100.0) + [("eps", "real", 1e-14, 1e-6)], run, max_paths=200,
-              expect_nonlinear=True, tv_points=2,
+    ob = FnOb(reals("x", n_in, -100.0, 100.0) + [("eps", "real", 1e-14, 1e-6)] + STANDIN_INPUT, run, max_paths=200,
+              expect_nonlinear=True, tv_points=2, replay_variants=REPLAY_VARIANTS,
               stubs=["calc_proj_eq_constraint / calc_proj_ineq_constraint (object and variable level): uninterpreted functions Peq, Pineq"],
               outside=["convergence speed and accuracy at termination", "that the limit is the nearest physical point (Boyle-Dykstra, given C04)",
                        "max_iteration beyond the unrolled K"])
@@ -205,12 +228,15 @@ def ob_fixpoint(typ, sys, m, order, flag, level, K):
         """Peq(x0) = x0 and Pineq(x0) = x0, imposed by rewriting the uninterpreted applications at x0"""
         x0 = start_of(I)
         if not any(isinstance(x, Sym) for x in x0):
-            raise core.AssumptionFailed()       # concrete stand-ins do not fix arbitrary points
+            if STANDIN["kind"] == 1:
+                return                          # the identity stand-ins fix every point
+            raise core.AssumptionFailed()       # the generic concrete stand-ins do not fix arbitrary points
         for name in ("Peq", "Pineq"):
             for i in range(len(x0)):
                 core.CTX.seed_uf(name, x0, x0[i], index=i)
 
     def run(I):
+        set_standin(I)
         c = qenv.csys(sys)
         cls = c03.cls_of(typ)
         eps = I["eps"]
@@ -234,7 +260,8 @@ def ob_fixpoint(typ, sys, m, order, flag, level, K):
             return [Eq("already-physical input is returned unchanged", res, v, 0.0),
                     Holds("stops after the second sweep", len(hist["x"]) - 1 == min(2, K))]
     n_in = ns if level == "object" else nv
-    return FnOb(reals("x", n_in, -100.0, 100.0) + [("eps", "real", 1e-14, 1e-6)], run, max_paths=50, tv_points=0,
+    return FnOb(reals("x", n_in, -100.0, 100.0) + [("eps", "real", 1e-14, 1e-6)] + STANDIN_INPUT, run, max_paths=50, tv_points=0,
+                replay_variants=[{"standin": 1}],
                 stubs=["Peq, Pineq uninterpreted, assumed to fix the start point"], note="translator validation skipped: the assumption constrains the uninterpreted functions")
 
 
@@ -246,6 +273,7 @@ def ob_objvar(typ, sys, m, order, flag, K):
     nv = c03.n_var(typ, d, m, flag)
 
     def run(I):
+        set_standin(I)
         c = qenv.csys(sys)
         cls = c03.cls_of(typ)
         eps = I["eps"]
@@ -265,8 +293,8 @@ def ob_objvar(typ, sys, m, order, flag, K):
         return [Eq("object-level.to_var() == variable-level", r1.to_var(), r2, 1e-9),
                 Eq("func_calc_proj_physical closure == variable-level", r3, r2, 1e-9),
                 Eq("func_calc_proj_physical_with_var closure == variable-level", r4, r2, 1e-9)]
-    return FnOb(reals("x", nv, -100.0, 100.0) + [("eps", "real", 1e-14, 1e-6)], run, max_paths=300, expect_nonlinear=True,
-                stubs=["Peq, Pineq uninterpreted"])
+    return FnOb(reals("x", nv, -100.0, 100.0) + [("eps", "real", 1e-14, 1e-6)] + STANDIN_INPUT, run, max_paths=300, expect_nonlinear=True,
+                replay_variants=REPLAY_VARIANTS, stubs=["Peq, Pineq uninterpreted"])
 
 
 def obligations(tier):
